@@ -3,7 +3,8 @@ the walk dispatcher's rely/guarantee invariant."""
 import z3
 
 from pyvc.contracts_api import contract, spec
-from pyvc.core import OutOfSubset, z3num, fresh_name
+from pyvc.core import OutOfSubset, z3num, fresh_name, is_z3
+from pyvc.ops import simp
 from pyvc import ops
 from pyvc.values import Opaque, NTuple, PyList
 from pyvc.types import register_type
@@ -285,6 +286,15 @@ def producer_trace(worker_qualname, worker_args, item_of, item_guard=None, loop_
                     and _is(apps[0][2], news[0][1]))
             path.oblige(m.oblname("producer/each_worker_started_once_and_recorded"), z3.BoolVal(bool(good)),
                         kind="trace", assume_after=False)
+        # (P1b) some worker exists to take the items: with none, every put is never processed
+        from pyvc.interp import RangeVal
+        for e in ev:
+            if e[0] == "loop_summary" and e[1] == loop_workers and isinstance(e[2], RangeVal) and e[2].step == 1:
+                some = z3num(e[2].stop) - z3num(e[2].start) >= 1
+                tot = fr.entry_env.lookup("total") if fr.entry_env.has("total") else None
+                if tot is not None and (is_z3(tot) or isinstance(tot, int)):
+                    some = z3.Implies(z3num(tot) >= 1, some)
+                path.oblige(m.oblname("producer/at_least_one_worker_is_started"), simp(some), kind="trace", assume_after=False)
         # (P2) one put per item that the serial stage would process, of that very item
         for si in [i for i, e in enumerate(ev) if e[0] == "loop_iter" and e[1] == loop_items]:
             seg = ev[si + 1:]
@@ -320,6 +330,8 @@ def producer_trace(worker_qualname, worker_args, item_of, item_guard=None, loop_
             if any(e[0] == "loop_iter_end" and e[1] == loop_join for e in seg):
                 js = [e for e in seg if e[0] == "proc_join"]
                 path.oblige(m.oblname("producer/each_recorded_worker_is_joined"), z3.BoolVal(len(js) == 1), kind="trace", assume_after=False)
+                path.oblige(m.oblname("producer/each_join_waits_until_the_worker_has_ended"), z3.BoolVal(all(len(e) < 3 or e[2] is None for e in js)),
+                            kind="trace", assume_after=False)
 
     return hook
 
@@ -596,7 +608,11 @@ def join_workers_trace(m, path, fr, env, outcome, value, exc):
     for si in [i for i, e in enumerate(ev) if e[0] == "loop_iter" and e[1] == 0]:
         seg = ev[si + 1:]
         if any(e[0] == "loop_iter_end" and e[1] == 0 for e in seg):
-            path.oblige(m.oblname("each_worker_is_joined"), z3.BoolVal(len([e for e in seg if e[0] == "proc_join"]) == 1), kind="trace", assume_after=False)
+            js = [e for e in seg if e[0] == "proc_join"]
+            path.oblige(m.oblname("each_worker_is_joined"), z3.BoolVal(len(js) == 1), kind="trace", assume_after=False)
+            # only an unbounded join guarantees the worker has ended (and has an exit code) when the codes are read
+            path.oblige(m.oblname("each_join_waits_until_the_worker_has_ended"), z3.BoolVal(all(len(e) < 3 or e[2] is None for e in js)),
+                        kind="trace", assume_after=False)
 
 
 @contract("toasty.par_util.join_workers")
